@@ -237,7 +237,17 @@ func decodeCalendarDataReq(calendarData *calendarDataReq) (*CalendarCompRequest,
 
 func (h *Handler) handleQuery(r *http.Request, w http.ResponseWriter, query *calendarQuery) error {
 	var q CalendarQuery
-	// TODO: calendar-data in query.Prop
+	if query.Prop != nil {
+		var calendarData calendarDataReq
+		if err := query.Prop.Decode(&calendarData); err != nil && !internal.IsNotFound(err) {
+			return err
+		}
+		decoded, err := decodeCalendarDataReq(&calendarData)
+		if err != nil {
+			return err
+		}
+		q.CompRequest = *decoded
+	}
 	cf, err := decodeCompFilter(&query.Filter.CompFilter)
 	if err != nil {
 		return err
